@@ -27,7 +27,7 @@ def prep(ID, n):
     return ','.join(ov)
 def run(job):
     ID, n, ov = job
-    env = dict(os.environ, SYMGO_OVERLAY=ov, SYMGO_WORKERS='6', VERIF_ROOT='/verif', GOFLAGS='-mod=mod', GOPROXY='off', GOSUMDB='off', GOTOOLCHAIN='local')
+    env = dict(os.environ, SYMGO_EVIDENCE_DIR='/tmp/ev_triage', SYMGO_OVERLAY=ov, SYMGO_WORKERS='6', VERIF_ROOT='/verif', GOFLAGS='-mod=mod', GOPROXY='off', GOSUMDB='off', GOTOOLCHAIN='local')
     out = subprocess.run(['/verif/bin/symgo', 'check', ID, 'quick'], capture_output=True, text=True, env=env, cwd='/verif').stdout
     lines = [l for l in out.split('\n') if l.startswith(('VIOLATION', '  what', ID + ' quick', 'ENGINE'))]
     caught = any(l.startswith('VIOLATION property=' + ID) for l in lines)
